@@ -168,9 +168,13 @@ func execStLimits(c *hlib.Ctx, tok []string) string {
 		return "bad-op" // st.limits is the deterministic (non-lazy) variant, o.limits the lazy one
 	}
 	skip := tok[7] == "1"
+	lazyBefore := r.b.storeCounter(cfg, "thanos_bucket_store_lazy_expanded_postings_total")
 	srv, serr, ok := r.series(skip)
 	if !ok {
 		return "bad-op"
+	}
+	if r.b.storeCounter(cfg, "thanos_bucket_store_lazy_expanded_postings_total") > lazyBefore {
+		c.Count(fmt.Sprintf("path:lazy-expansion-taken:skip-chunks=%v", skip))
 	}
 	// the same request without limits, on the same store instance
 	free := *r
@@ -316,7 +320,7 @@ func genC09(c *hlib.Ctx) {
 		c.Do(fmt.Sprintf("lim.seq %d %s", limit, hlib.Ints(ns, ",")), k > 0)
 	}
 	// ---- the limited store server in front of a TSDB store
-	for i, n := 0, c.N(6, 150); i < n; i++ {
+	for i, n := 0, c.N(6, 120); i < n; i++ {
 		g := &storeGen{r: r, storedPool: []int{1, 2, 4, 5, 7, 9, 11}, extPool: []int{5, 6, 9, 11}}
 		blocks := g.genBlocks(1, 10, 0)
 		tb := showBlocks(blocks)
@@ -337,7 +341,7 @@ func genC09(c *hlib.Ctx) {
 		}
 	}
 	// ---- the store gateway
-	nStores, nReq := c.N(10, 300), c.N(24, 50) // writing a block costs 0.1-0.4 s (write buffers of the Prometheus writers), a request ~1 ms
+	nStores, nReq := c.N(10, 240), c.N(24, 50) // writing a block costs 0.1-0.4 s (write buffers of the Prometheus writers), a request ~1 ms
 	for i := 0; i < nStores; i++ {
 		g := &storeGen{r: r, storedPool: []int{1, 2, 4, 5, 7, 9, 11}, extPool: []int{5, 6, 9, 11}}
 		blocks := g.genBlocks(r.Range(1, 3), 10, 1)
@@ -353,7 +357,13 @@ func genC09(c *hlib.Ctx) {
 			if r.Chance(1, 2) {
 				mint, maxt = -10, 100000
 			}
-			skip := r.Chance(1, 8)
+			// a third of the requests are built for lazy posting expansion (selectors on two or three stored labels; asked
+			// with a tiny series size estimate): there the per-batch reservation is the only series-limit enforcement
+			lazyProne := r.Chance(1, 3)
+			if lazyProne {
+				ms = g.genLazyProneMatchers(blocks)
+			}
+			skip := r.Chance(1, 8) || (lazyProne && r.Bool())
 			sk := 0
 			if skip {
 				sk = 1
@@ -396,9 +406,13 @@ func genC09(c *hlib.Ctx) {
 					op = "o.limits"
 				}
 				batch := pickInt(r, 1, 3, 10000)
-				line := fmt.Sprintf("%s bkt+l%d+b%d+sl%d+cl%d %s %d %d %s - %d", op, lazy, batch, sl, cl, tokBlocks, mint, maxt, showMatchers(ms), sk)
+				cfgTok := fmt.Sprintf("bkt+l%d+b%d+sl%d+cl%d", lazy, batch, sl, cl)
+				if lazy == 1 && lazyProne {
+					cfgTok += "+m1"
+				}
+				line := fmt.Sprintf("%s %s %s %d %d %s - %d", op, cfgTok, tokBlocks, mint, maxt, showMatchers(ms), sk)
 				ans := c.Do(line, true)
-				c.Count(fmt.Sprintf("st:lazy%d:%s", lazy, strings.Fields(ans)[0]))
+				c.Count(fmt.Sprintf("st:lazy%d:skip%d:%s", lazy, sk, strings.Fields(ans)[0]))
 			}
 			switch {
 			case sl == 0 && cl == 0:
